@@ -35,6 +35,10 @@ def run(ctx):
     serde = db.crate("serde_lexpr")
     c07.writeall(ctx, lexpr, serde)
     peculiar(ctx, lexpr)
+    # the whole u64 and i64 range round-trips: the integer boundary magnitudes keep their representation (shared with C05)
+    from . import c05
+    c05.int_boundary(ctx.rule("R-INT-BOUNDARY", "parse_num_tail stores boundary magnitudes as the exact integer: "
+                                                "[-2^63, 2^64-1] stays an integer, beyond that a float"), lexpr)
     r4 = ctx.rule("R-CHAR-R6RS", "printable characters in #\\c syntax are read back as themselves (95 characters)")
     n = roundtrip.printable_chars(r4, lexpr, "r6rs")
     if n is not None:
